@@ -12,6 +12,7 @@ import RotoV.Lemmas.ScopePath
 import RotoV.Lemmas.ScopeFrame
 import RotoV.Lemmas.ScopeDiscovery
 import RotoV.Lemmas.ScopeBuild
+import RotoV.Lemmas.ScopeExport
 
 namespace RotoV.C13
 open RotoV.Scope
@@ -206,6 +207,48 @@ theorem import_order_dep :
              kindOf (g₁.resolve 5 6 true) = some (.fn 102) ∧
              kindOf (g₂.resolve 5 6 true) = some (.fn 101) := by
   refine ⟨WF_of_WFb (by decide), _, _, rfl, rfl, ?_, ?_⟩ <;> decide
+
+/-! ## T5 — export_names -/
+
+/-- **T5 (names).** After a successful `check_module_tree` (on top of any
+    registered runtime modules `rt`), the name under which an item `f` of module
+    `i` is stored in the compiled module — `full_name` — is the chain of module
+    identifiers from the root module down to module `i` (`PathTo`, read off the
+    module list alone), followed by `f`: `pkg.<module path>.<fn>`.  This holds in
+    the *final* graph: no later pass (imports, function and block scopes) changes
+    it.  `get_function("a.b.f")` looks up exactly `pkg.a.b.f`. -/
+theorem export_names (rt ms : List Module) (g0 : Graph) (m0 : List Nat) (out : Outcome)
+    (h0 : declareModules rt [] Graph.new = .ok (g0, m0))
+    (h : checkModuleTree g0 ms = .ok out)
+    (i : Nat) (path : List Name) (hp : PathTo ms i path) (s : Nat) (hs : out.mods[i]? = some s)
+    (f : Name) :
+    fullName out.g ⟨s, f⟩ = .ok ((path ++ [f]).map Seg.id) := by
+  obtain ⟨hi, hr, _⟩ := minfo_checkModuleTree h0 h
+  exact fullName_spec hi hr hp hs f
+
+/-- every module of a successfully checked tree has such a path … -/
+theorem export_names_total (rt ms : List Module) (g0 : Graph) (m0 : List Nat) (out : Outcome)
+    (h0 : declareModules rt [] Graph.new = .ok (g0, m0))
+    (h : checkModuleTree g0 ms = .ok out) (i : Nat) (hlt : i < ms.length) :
+    ∃ path s, PathTo ms i path ∧ out.mods[i]? = some s := by
+  obtain ⟨hi, _, _⟩ := minfo_checkModuleTree h0 h
+  obtain ⟨path, hp⟩ := pathTo_exists hi i hlt
+  have hil : i < out.mods.length := by rw [hi.len]; exact hlt
+  exact ⟨path, _, hp, List.getElem?_eq_getElem hil⟩
+
+/-- **T5 (injective).** … and distinct functions get distinct names: if the
+    exported names of `f` in module `i` and `f'` in module `j` coincide, then
+    `i = j` and `f = f'`. -/
+theorem export_injective (rt ms : List Module) (g0 : Graph) (m0 : List Nat) (out : Outcome)
+    (h0 : declareModules rt [] Graph.new = .ok (g0, m0))
+    (h : checkModuleTree g0 ms = .ok out)
+    (i j : Nat) (pi pj : List Name) (hpi : PathTo ms i pi) (hpj : PathTo ms j pj) (f f' : Name)
+    (heq : pi ++ [f] = pj ++ [f']) : i = j ∧ f = f' := by
+  obtain ⟨hi, _, inv⟩ := minfo_checkModuleTree h0 h
+  obtain ⟨h1, h2⟩ := List.append_inj' heq (by simp)
+  subst h1
+  simp only [List.cons.injEq, and_true] at h2
+  exact ⟨pathTo_injective (uniq_of_minfo hi inv.mok) hpi hpj, h2⟩
 
 /-! ## T6 — discovery -/
 
